@@ -871,8 +871,11 @@ def syntax_worker(job):
         bag.add('token_strings')
         if valid and len(toks) > 1:
             bag.add('nontrivial')
+        nopen, nclose = toks.count('['), toks.count(']')
         feat0 = dict(kind='syntax', mode=mode, xsd_version=ver, expected='valid' if valid else 'invalid', why=why,
-                     ncg='(?:' in toks, in_class='[' in toks)
+                     ncg='(?:' in toks, in_class='[' in toks,
+                     brackets='open' if nopen > nclose else 'balanced' if nopen == nclose else 'extra',
+                     subtraction=any(a == '-' and b == '[' for a, b in zip(toks, toks[1:])))
         case0 = dict(kind='syntax', pattern=p, mode=mode, xsd_version=ver)
         try:
             py = translate_pattern(p, 0, ver, xp, xp, xp)
@@ -943,6 +946,7 @@ SYNTAX_CONFIGS = {
         ('xp3-4', 'xp3', '1.0', XP_TOKENS_Q, XP_TOKENS_Q, 4, True),
         ('xsd-cls5', 'xsd', '1.0', CLS_TOKENS, {"["}, 5, False),
         ('xp3-cls5-11', 'xp3', '1.1', CLS_TOKENS, {"["}, 5, True),
+        ('xp3-cls6', 'xp3', '1.0', {"a", "-", "[", "]", "^"}, {"["}, 6, True),
     ],
     'thorough': [
         ('xp3-all3', 'xp3', '1.0', ALL_TOKENS, ALL_TOKENS, 3, True),
